@@ -10,7 +10,13 @@ design-level property (Mirror, DynAgrees, TrimInv) on every (domain, op, N) and 
 The harness replays every TLC case into the real classes (direction A, with step-level observation:
 get_schema / Op / _prepare_inputs / eval_op are recorded by wrappers installed at run time) and
 compares  implementation vs property (VIOLATION)  and  implementation vs model (SPEC-MISMATCH).
-Part 3 executes "defaults left out = bare node" on onnxruntime for a table of operators.
+Translation: the same attribute access is followed through converter callee resolution, the graph's
+opset import and OnnxFunction.to_model_proto(opset_version=req), req in {none, N, M != N}; invariant
+TransMirror: the model's standard opset import is the N of the opset class used (the argument only
+decides when nothing can be inferred), so the node denotes the schema eager mode evaluates.  Every
+TLC case is replayed through script()/to_model_proto.
+Part 3 executes "defaults left out = bare node" and "eager = translated model" on onnxruntime for a
+table of operators.
 """
 from __future__ import annotations
 
@@ -32,7 +38,7 @@ DOMKEY = {"": "onnx", "ai.onnx.ml": "ml", "ai.onnx.preview": "preview"}
 KEYDOM = {v: k for k, v in DOMKEY.items()}
 DEV = "deprecated_op_inherited"
 WITNESSES = ["SomeInherited", "SomeInnerNone", "SomeVariadic", "SomeNoMethod", "SomeDeprecatedMasked",
-             "SomeDefaulted", "SomeNoInputs", "SomeShadow"]
+             "SomeDefaulted", "SomeNoInputs", "SomeShadow", "SomeRequestedOther", "SomeNotInferred"]
 
 
 # ------------------------------------------------------------------ registry dump (ONNX side)
@@ -90,7 +96,8 @@ def registry():
             continue
         e = {"since": int(s.since_version), "dep": bool(s.deprecated),
              "ins": [{"name": i.name, "opt": opt[i.option]} for i in s.inputs],
-             "attrs": [{"name": n, "req": bool(a.required), "hasdef": _tok(a) is not None, "dflt": _tok(a) or "-"}
+             "attrs": [{"name": n, "req": bool(a.required), "hasdef": _tok(a) is not None, "dflt": _tok(a) or "-",
+                        "type": str(a.type).split(".")[-1]}
                        for n, a in sorted(s.attributes.items())]}
         for k, i in enumerate(e["ins"]):
             if i["opt"] == "V" and k != len(e["ins"]) - 1:
@@ -165,7 +172,8 @@ def run_tlc_all(ctx, reg):
         "impl": lambda: core.run_tlc("OpsetDispatch", impl_cfg, env=env, workers=half, timeout=1500, extra=["-dump", dump_path]),
         "sig": lambda: core.run_tlc("OpsetSignatures", "OpsetSignatures.cfg", env=env, workers=1, timeout=600, heap="2g"),
     }
-    small = {"canfail": lambda: core.run_tlc("OpsetDispatch", "OpsetDispatch_canfail.cfg", env=wenv, workers=1, timeout=900, heap="1g")}
+    small = {"canfail": lambda: core.run_tlc("OpsetDispatch", "OpsetDispatch_canfail.cfg", env=wenv, workers=1, timeout=900, heap="1g"),
+             "canfail_trans": lambda: core.run_tlc("OpsetDispatch", "OpsetDispatch_canfail_trans.cfg", env=wenv, workers=1, timeout=900, heap="1g")}
     for w in WITNESSES:
         small["w_" + w] = (lambda w=w: core.run_tlc("OpsetDispatch", f"OpsetDispatch_w_{w}.cfg", env=wenv, workers=1, timeout=900, heap="1g"))
     res = {}
@@ -184,6 +192,9 @@ def run_tlc_all(ctx, reg):
     if res["canfail"].ok or res["canfail"].violated != "Mirror":
         raise core.MachineryError("vacuity: Mirror cannot fail (OpsetDispatch_canfail.cfg passed)")
     ctx.tlc(res["canfail"], "OpsetDispatch_canfail.cfg (witness registry; Mirror must fail)")
+    if res["canfail_trans"].ok or res["canfail_trans"].violated != "TransMirror":
+        raise core.MachineryError("vacuity: TransMirror cannot fail (OpsetDispatch_canfail_trans.cfg passed)")
+    ctx.tlc(res["canfail_trans"], "OpsetDispatch_canfail_trans.cfg (witness registry; TransMirror must fail)")
     for w in WITNESSES:
         r = res["w_" + w]
         ctx.tlc(r, f"witness {w} (witness registry)")
@@ -195,7 +206,7 @@ def run_tlc_all(ctx, reg):
             table = json.loads(pr[1])
     if table is None:
         raise core.MachineryError("signature table not printed by TLC")
-    states, total = _filtered_dump(dump_path, {"found", "nomethod", "done"})
+    states, total = _filtered_dump(dump_path, {"found", "nomethod", "done", "t_model"})
     if total != res["impl"].distinct:
         raise core.MachineryError(f"dump has {total} states, TLC reported {res['impl'].distinct}")
     # the same witnesses on the full run that is replayed (antecedents of the property really occur in it)
@@ -208,6 +219,8 @@ def run_tlc_all(ctx, reg):
         "no-input operator": any(not s["event"]["prepared"] for s in done),
         "unknown name": any(s["pc"] == "nomethod" and s["dyn"] == 0 for s in states),
         "deprecated without method": any(s["pc"] == "nomethod" and s["dyn"] != 0 for s in states),
+        "translation with a requested opset_version other than N": any(s["pc"] == "t_model" and s["dom"] == "onnx" and s["req"] not in (0, s["ver"]) for s in states),
+        "translation where the standard opset cannot be inferred": any(s["pc"] == "t_model" and s["dom"] != "onnx" and s["req"] != 0 for s in states),
     }
     for k, v in full.items():
         if not v:
@@ -545,6 +558,171 @@ def check_calls(ctx, reg, real, sig_by_key, done, bad_lookup_pre):
     return static_since, nontriv
 
 
+# ------------------------------------------------------------------ part 2b: translation (script -> to_model_proto(opset_version=req))
+_ATTR_LIT = {"INT": "1", "FLOAT": "1.0", "STRING": '"a"', "INTS": "[1]", "FLOATS": "[1.0]", "STRINGS": '["a"]'}
+
+
+def trans_call_text(sch):
+    """argument text of a minimal call of the operator inside a script, or None when a required attribute has no literal form"""
+    ins = sch["ins"]
+    last_req = max([i for i, x in enumerate(ins) if x["opt"] == "S"], default=-1)
+    params, args = [], []
+    for i, x in enumerate(ins):
+        if x["opt"] == "V":
+            params += [f"a{i}", f"a{i}x"]
+            args += [f"a{i}", f"a{i}x"]
+        elif x["opt"] == "S":
+            params.append(f"a{i}")
+            args.append(f"a{i}")
+        elif i < last_req or any(y["opt"] == "V" for y in ins[i + 1:]):
+            args.append("None")
+    for a in sch["attrs"]:
+        if a["req"]:
+            if a["type"] not in _ATTR_LIT:
+                return None
+            args.append(f"{a['name']}={_ATTR_LIT[a['type']]}")
+    return params, args
+
+
+def _opset_global(domain, ver):
+    return "o_" + (domain.replace(".", "_") or "onnx") + f"_{ver}"
+
+
+def _write_module(tag, opsets, funcs):
+    """a real .py file (script() needs inspect.getsource) with plain functions; returns the imported module"""
+    import importlib
+
+    d = core.scratch_sub("c17mods")
+    name = f"c17t_{os.getpid()}_{tag}"
+    lines = ["from onnxscript import onnx_opset as _oo", "from onnxscript.onnx_types import *", ""]
+    lines += [f"{_opset_global(dom, ver)} = _oo.all_opsets[({dom!r}, {ver})]" for dom, ver in sorted(opsets)]
+    lines += ["", ""] + funcs
+    path = os.path.join(d, name + ".py")
+    with open(path, "w") as fh:
+        fh.write("\n".join(lines) + "\n")
+    if d not in sys.path:
+        sys.path.insert(0, d)
+    importlib.invalidate_caches()
+    return importlib.import_module(name), name, path
+
+
+def _model_summary(m, name, domain):
+    import onnx
+
+    imports = {o.domain: int(o.version) for o in m.opset_import}
+    nodes = [[n.op_type, n.domain] for n in m.graph.node]
+    try:
+        sch = onnx.defs.get_schema(name, imports[domain], domain)
+        denotes = [int(sch.since_version), bool(sch.deprecated)]
+    except Exception as ex:
+        denotes = f"raise:{type(ex).__name__}"
+    return {"imports": imports, "nodes": nodes, "denotes": denotes}
+
+
+def trans_chunk(arg):
+    """[(k, domain, ver, name, params, args, reqs)] -> {k: {req: summary} | {"error": ..}} using the real script()/to_model_proto"""
+    tag, items = arg
+    from onnxscript import script
+
+    funcs = []
+    for k, domain, ver, name, params, args, reqs in items:
+        funcs.append(f"def f{k}({', '.join(params)}):\n    return {_opset_global(domain, ver)}.{name}({', '.join(args)})\n\n")
+    mod, modname, path = _write_module(tag, {(i[1], i[2]) for i in items}, funcs)
+    out = {}
+    try:
+        for k, domain, ver, name, params, args, reqs in items:
+            try:
+                fn = script()(getattr(mod, f"f{k}"))
+            except Exception as ex:
+                out[k] = {"error": f"script: {type(ex).__name__}: {str(ex)[:200]}"}
+                continue
+            r = {}
+            for req in reqs:
+                try:
+                    m = fn.to_model_proto(**({} if req == 0 else {"opset_version": req}))
+                    r[req] = _model_summary(m, name, domain)
+                except Exception as ex:
+                    r[req] = {"error": f"to_model_proto: {type(ex).__name__}: {str(ex)[:200]}"}
+            out[k] = r
+    finally:
+        sys.modules.pop(modname, None)
+        try:
+            os.remove(path)
+        except OSError:
+            pass
+    return out
+
+
+def check_translation(ctx, reg, tmodel, static_since):
+    """replay every TLC translation case (domain, op, N, requested opset_version) into the real converter"""
+    groups = {}
+    for s in tmodel:
+        groups.setdefault((s["dom"], s["ver"], s["name"]), []).append(s)
+    items, skipped = [], 0
+    for k, ((d, ver, name), ss) in enumerate(sorted(groups.items())):
+        t = trans_call_text(schema_entry(reg, d, name, ss[0]["owner"]))
+        if t is None:
+            skipped += len(ss)
+            continue
+        items.append((k, KEYDOM[d], ver, name, t[0], t[1], sorted({s["req"] for s in ss})))
+    nchunk = max(1, min(len(items), core.NCPU * 4))
+    chunks = [(c, items[c::nchunk]) for c in range(nchunk)]
+    results = {}
+    for r in core.pmap(trans_chunk, chunks, chunksize=1):
+        results.update(r)
+    by_k = {(DOMKEY[i[1]], i[2], i[3]): i[0] for i in items}
+    mism = refused = judged = 0
+    reported = set()
+    for s in sorted(tmodel, key=lambda s: (s["dom"], s["ver"], s["name"], s["req"])):
+        d, ver, name, req = s["dom"], s["ver"], s["name"], s["req"]
+        k = by_k.get((d, ver, name))
+        if k is None:
+            continue
+        ctx.add("evaluations")
+        res = results.get(k, {"error": "no result"})
+        r = res.get("error") and res or res.get(req, {"error": "no result"})
+        case = {"kind": "translation", "dom": KEYDOM[d], "ver": ver, "op": name, "requested_opset_version": req or None,
+                "model": {"callee": s["callee"], "graph_std": s["gstd"], "model_std": s["mstd"], "owner": s["owner"]},
+                "want": s["want"], "impl": r}
+        if "error" in r:
+            refused += 1
+            continue
+        judged += 1
+        domain = KEYDOM[d]
+        if r["imports"].get("") != s["mstd"] or r["nodes"] != [[name, domain]]:
+            mism += 1
+            if mism <= 10:
+                print(f"SPEC-MISMATCH C17 translation opset{ver}.{name} opset_version={req or None}: real {r['imports']} {r['nodes']}, model standard import {s['mstd']}", flush=True)
+        # property: the model imports the N of the opset class used (the argument only decides when nothing can be inferred),
+        # so that the node denotes the schema eager mode evaluates
+        key = (d, name, s["owner"])
+        finding = DEV if s["want"]["shadow"] else None
+        if r["imports"].get(domain) != ver:
+            if key not in reported:
+                reported.add(key)
+                ctx.report(case, f"script written against opset{ver}.{name}, to_model_proto(opset_version={req or None}) imports "
+                                 f"{domain!r} version {r['imports'].get(domain)}: the node no longer denotes {name} as of opset {ver}")
+        else:
+            ss = static_since.get((d, ver, name))
+            den = r["denotes"]
+            if ss is not None and (not isinstance(den, list) or den[0] != ss):
+                if key not in reported or finding:
+                    reported.add(key)
+                    ctx.report(case, f"opset{ver}.{name} evaluates {name}-{ss} eagerly, the translated node in a model importing {r['imports']} denotes {den}",
+                               finding=finding)
+        if d == "onnx" and req not in (0, ver):
+            ctx.sample({k2: case[k2] for k2 in ("dom", "ver", "op", "requested_opset_version", "model", "impl")}, limit=7)
+    ctx.set("translation_cases", len(tmodel))
+    ctx.set("translation_judged", judged)
+    ctx.set("translation_refused_by_converter", refused)
+    ctx.set("translation_skipped_required_attr_without_literal", skipped)
+    ctx.set("translation_model_mismatches", mism)
+    if judged < len(tmodel) // 2:
+        raise core.MachineryError(f"only {judged} of {len(tmodel)} translation cases could be replayed")
+    return judged
+
+
+
 # ------------------------------------------------------------------ signatures
 def same_default(tok, v):
     if tok == "required":
@@ -679,8 +857,9 @@ def recipes():
 
 
 def spot_case(arg):
-    """(domain, ver, name, since) -> eager result vs bare node on onnxruntime"""
-    dom, ver, name, since = arg
+    """(domain, ver, name, since, reqs) -> eager result vs bare node on onnxruntime, and vs the script-translated model
+    produced by to_model_proto(opset_version=req) for every req in reqs (0 = argument not passed)"""
+    dom, ver, name, since, reqs = arg
     import onnx
     from onnx import helper
 
@@ -723,7 +902,43 @@ def spot_case(arg):
                 diffs.append({"output": k, "eager": [str(a.dtype), list(a.shape), a.reshape(-1)[:8].tolist()],
                               "bare": [str(b.dtype), list(b.shape), b.reshape(-1)[:8].tolist()]})
         out["diffs"] = diffs
+    # translation: the same call inside a script, model built with a requested opset_version
+    out["translated"] = []
+    if eager is not None and bare is not None:
+        tn = {"float32": "FLOAT", "int64": "INT64", "uint8": "UINT8", "bool": "BOOL"}
+        params = [f"a{k}: {tn[str(x.dtype)]}[...]" for k, x in enumerate(inputs) if x is not None]
+        args = [("None" if x is None else f"a{k}") for k, x in enumerate(inputs)] + [f"{k}={v!r}" for k, v in req.items()]
+        rets = ", ".join(f"r{k}" for k in range(len(eager)))
+        src = f"def f({', '.join(params)}):\n    {rets} = {_opset_global(dom, ver)}.{name}({', '.join(args)})\n    return {rets}\n"
+        fn = None
+        try:
+            from onnxscript import script
+
+            mod, modname, path = _write_module(f"x{spot_case.n}", {(dom, ver)}, [src])
+            spot_case.n += 1
+            try:
+                fn = script()(mod.f)
+            finally:
+                sys.modules.pop(modname, None)
+                os.remove(path)
+        except Exception as ex:
+            out["translated"].append({"req": None, "error": f"script: {type(ex).__name__}: {str(ex)[:200]}"})
+        for rq in (reqs if fn is not None else []):
+            t = {"req": rq}
+            try:
+                m = fn.to_model_proto(**({} if rq == 0 else {"opset_version": rq}))
+                t.update(_model_summary(m, name, dom))
+                got = core.ort_run(m, {f"a{k}": x for k, x in enumerate(inputs) if x is not None})
+                t["diffs"] = [{"output": k, "eager": a.reshape(-1)[:8].tolist(), "translated": np.asarray(b).reshape(-1)[:8].tolist()}
+                              for k, (a, b) in enumerate(zip(eager, got))
+                              if a is not None and not core.same_array(a, np.asarray(b), exact=False, rtol=1e-5, atol=1e-6)]
+            except Exception as ex:
+                t["error"] = f"{type(ex).__name__}: {str(ex)[:300]}"
+            out["translated"].append(t)
     return out
+
+
+spot_case.n = 0
 
 
 def spot_cases(ctx, reg, lookups):
@@ -744,14 +959,21 @@ def spot_cases(ctx, reg, lookups):
                     by_owner.setdefault(ow, []).append(ver)
             for ow, vers in sorted(by_owner.items()):
                 pick = vers if not ctx.quick else sorted({vers[0], rng.choice(vers)})
-                cases += [(domain, v, name, ow) for v in pick]
+                # requested opset_version: none, and the versions at which the operator changes (else a fixed other version)
+                hist = [e["since"] for e in reg["ops"][d][name]]
+                other = [m for m in hist if m != ow and 7 <= m <= top] if d == "onnx" else []
+                for v in pick:
+                    ms = [m for m in (other or [13 if v != 13 else 18]) if m != v]
+                    if ctx.quick and len(ms) > 1:
+                        ms = [min(ms, key=lambda m: (abs(m - v), m))]
+                    cases.append((domain, v, name, ow, [0] + ms))
     return cases
 
 
 def check_eager(ctx, reg, lookups):
     cases = spot_cases(ctx, reg, lookups)
     results = core.pmap(spot_case, cases)
-    ran = disc = 0
+    ran = disc = tran = tdisc = 0
     for r in results:
         ctx.add("evaluations")
         c = r["case"]
@@ -766,8 +988,24 @@ def check_eager(ctx, reg, lookups):
         if r["diffs"]:
             ctx.report(dict(c, diffs=r["diffs"]),
                        f"eager opset{c['ver']}.{c['op']} with defaults left out differs from the bare node at opset {c['ver']}: {r['diffs'][0]}")
+        for t in r.get("translated", []):
+            tc = dict(c, kind="eager_vs_translated", requested_opset_version=t["req"] or None, translated=t)
+            std = t.get("imports", {}).get(c["dom"])
+            if "error" in t:
+                if std is not None and std != c["ver"]:
+                    ctx.report(tc, f"script calling opset{c['ver']}.{c['op']}, to_model_proto(opset_version={t['req'] or None}) imports version {std} "
+                                   f"and onnxruntime refuses the model ({t['error'][:160]}); eager mode evaluates the call")
+                else:
+                    tdisc += 1
+                continue
+            tran += 1
+            if t["diffs"]:
+                ctx.report(tc, f"script calling opset{c['ver']}.{c['op']}: the model from to_model_proto(opset_version={t['req'] or None}) "
+                               f"(imports {t['imports']}) computes something else than eager mode: {t['diffs'][0]}")
     ctx.set("eager_vs_bare_node_executed", ran)
     ctx.set("eager_vs_bare_node_discarded", disc)
+    ctx.set("eager_vs_translated_model_executed", tran)
+    ctx.set("eager_vs_translated_model_discarded", tdisc)
     return ran
 
 
@@ -812,6 +1050,7 @@ def run(ctx: core.Ctx):
             pre.add((s["dom"], s["ver"], s["name"]))
     static_since, nontriv = check_calls(ctx, reg, real, sig_by_key, done, pre)
     check_lookups(ctx, reg, real, lookups, static_since)
+    ntrans = check_translation(ctx, reg, [s for s in states if s["pc"] == "t_model"], static_since)
     check_signatures(ctx, reg, real, table)
     ran = check_eager(ctx, reg, lookups)
     ctx.set("distinct_nontrivial", len(nontriv))
@@ -820,7 +1059,9 @@ def run(ctx: core.Ctx):
                     "and, for every method found, every positional pattern (each optional input given / None / left out, variadic tail 0..MaxExtra) "
                     "x attribute modes (only required / all" + ("" if ctx.quick else " / each one alone") + "); all cases are replayed. "
                     "non-trivial = call in which an input was trimmed, an attribute defaulted, or the method is inherited; distinct by "
-                    f"(domain, op, generating version, positional pattern, given attributes). {ran} eager-vs-bare-node executions on onnxruntime")
+                    f"(domain, op, generating version, positional pattern, given attributes). {ran} eager-vs-bare-node executions on onnxruntime. "
+                    f"translation: every (domain, op, N) x requested opset_version in {{none, N, op's change points, fixed versions}} replayed through script()/to_model_proto "
+                    f"({ntrans} judged); a sample is executed on onnxruntime against eager mode")
     ctx.assumptions += [
         "onnx.defs is the reference: Resolve(op, N) = registered schema with the greatest since_version <= N",
         "operators ONNX has deprecated at version N are expected to have NO method (a deprecated schema cannot be used in a model of that version)",
@@ -860,7 +1101,12 @@ def replay(ctx, path):
         o = real.opset(d, case["since"])
         f = type(o).__dict__.get(case["op"])
         print("now:", inspect.signature(f) if f else None)
-    if kind == "eager":
-        r = spot_case((case["dom"], case["ver"], case["op"], case["since"]))
+    if kind == "translation":
+        sch = schema_entry(reg, d, case["op"], case["model"]["owner"])
+        t = trans_call_text(sch)
+        r = trans_chunk(("replay", [(0, case["dom"], case["ver"], case["op"], t[0], t[1], [case["requested_opset_version"] or 0])]))
+        print("now:", json.dumps(r, indent=1, default=str)[:3000])
+    if kind in ("eager", "eager_vs_translated"):
+        r = spot_case((case["dom"], case["ver"], case["op"], case["since"], [case.get("requested_opset_version") or 0]))
         print("now:", json.dumps({k: v for k, v in r.items() if k != "case"}, indent=1, default=str)[:3000])
     return 0
